@@ -19,5 +19,6 @@ Extraction "popsmodel.ml"
   class_eligible class_supports elig_eval class_call_throws
   factory_natural_eligible factory_anthropogenic_eligible
   mix_switch_choice mix_switch_draws mix_factory_choice mix_factory_draws
+  dynamic_kernel_anthro_built
   (* conv.ml expects the datatype nat to exist *)
   List.length.
